@@ -195,6 +195,7 @@ func c04(c *core.Ctx) {
 		// the identity is memoised: the memo holds nothing but what Hash computed from the content (a transaction decoded from the wire
 		// or from JSON must not bring its own identity along)
 		memoCache(c, "Transaction.hash-memo", c.FieldVar(typ+".Transaction", "hash"), hfn, rlp)
+		c04IdentityFromContent(c)
 		// ... and the memo never goes stale: a field the identity is computed from is stored only into a transaction that cannot have a
 		// filled memo yet (a literal, a local copy, the result of Clone, a decode target), or by a table-listed in-place writer whose use keeps
 		// the identity (premises below)
